@@ -181,6 +181,10 @@ func (c *Canary) knockDetector(ctx context.Context) {
 		case <-time.After(time.Second * 5):
 			now := time.Now()
 
+			// groups that have been reported; they are removed once the iteration is done, removing
+			// while iterating shifts the items and makes Each skip one group and visit another twice
+			reported := []*KnockGroup{}
+
 			knocks.Each(func(i int, v interface{}) {
 				k := v.(*KnockGroup)
 
@@ -198,7 +202,7 @@ func (c *Canary) knockDetector(ctx context.Context) {
 
 				// TODO(): make duration configurable
 				if k.Last.Add(time.Second * 60).After(now) {
-					defer knocks.Remove(k)
+					reported = append(reported, k)
 				}
 
 				ports := make([]string, k.Knocks.Count())
@@ -226,6 +230,10 @@ func (c *Canary) knockDetector(ctx context.Context) {
 					),
 				)
 			})
+
+			for _, k := range reported {
+				knocks.Remove(k)
+			}
 		}
 	}
 }
